@@ -122,13 +122,13 @@ theorem PState.tasks_eq (h : PState ok j0 jo F0 s) (q1 : WQ) :
 theorem PState.task_facts (h : PState ok j0 jo F0 s) {n : String} {t : Task} (ht : lookTask s n = some t) :
     TaskGood t ∧ t.ref.finishTimestamp.isSome = true ∧ t.deletionTimestamp = none ∧
     (∀ f, t.ref.finishTimestamp = some f → F0 ≤ f) ∧
-    ∃ p ∈ s.pods, p.pod.name = n ∧ podTask p = some t := by
+    ∃ p ∈ s.pods, p.pod.name = n ∧ podTask s.clock p = some t := by
   obtain ⟨p, hp, hpt⟩ := lookTask_some ht
   have hpm := findPod_some hp
   have hc := (h.canon.pods.sane p hpm.1).2
   refine ⟨podTask_taskGood hc hpt, podTask_finished hc hpt (h.podsFin p hpm.1), ?_, ?_, p, hpm.1, hpm.2, hpt⟩
   · rw [(podTask_fields hpt).2.1]; exact h.canon.pods.nodel p hpm.1
-  · intro f hf; exact podFinLB_self (h.canon.lbPods p hpm.1) hpt hf
+  · intro f hf; exact podFinLB_self (h.canon.lbPods p hpm.1) h.canon.lbNow hpt hf
 
 theorem PState.consistent (h : PState ok j0 jo F0 s) : Consistent s jo.job.status.tasks (foundTasks s jo) :=
   consistent_found s jo.job.status.tasks h.canon.nodupNames
@@ -188,7 +188,7 @@ theorem PState.refP_facts (h : PState ok j0 jo F0 s) {r : TaskRef} (hr : r ∈ j
       obtain ⟨retry, hn, _, hri⟩ := h.canon.podName hp
       have h1 : t.ref.retryIndex = retry := by
         unfold podTask Pod.task at hpt
-        cases hr' : p.pod.taskRef with
+        cases hr' : p.pod.taskRef s.clock with
         | none => simp [hr'] at hpt
         | some rr =>
           simp only [hr', Option.some.injEq] at hpt
@@ -230,10 +230,10 @@ theorem PState.refP_facts (h : PState ok j0 jo F0 s) {r : TaskRef} (hr : r ∈ j
       · exact Or.inl (k3 hs)
 
 /-- the index and retry number a pod's task reports are the pod's -/
-theorem podTask_index {p : PodObj} {t : Task} (h : podTask p = some t) :
+theorem podTask_index {now : Time} {p : PodObj} {t : Task} (h : podTask now p = some t) :
     t.ref.parallelIndex = p.pod.parallelIndex ∧ t.ref.retryIndex = p.pod.retryIndex.getD 0 := by
   unfold podTask Pod.task at h
-  cases hr : p.pod.taskRef with
+  cases hr : p.pod.taskRef now with
   | none => simp [hr] at h
   | some r =>
     simp only [hr, Option.some.injEq] at h
